@@ -358,6 +358,9 @@ func (f *File) seekWithoutLocking(offset int64, whence int) (int64, error) {
 				// TODO: Handle error
 				panic(err)
 			}
+
+			// Signal EOF even if nothing was restored into the pipe (i.e. the record is not a regular file)
+			_ = writer.Close()
 		}()
 
 		f.readOpReader = reader
@@ -538,6 +541,9 @@ func (f *File) Read(p []byte) (n int, err error) {
 				// TODO: Handle error
 				panic(err)
 			}
+
+			// Signal EOF even if nothing was restored into the pipe (i.e. the record is not a regular file)
+			_ = writer.Close()
 		}()
 
 		f.readOpReader = reader
